@@ -172,6 +172,8 @@ func (g *genState) queryOp(src string, tab int) {
 	g.qword = "q"
 	if k != "num" && k != "rev" && g.r.Chance(g.weight(12, "C06", 6)) {
 		g.qword = "wq" // keep the watch channel of this query (C06)
+	} else if k != "rev" && g.r.Chance(12) {
+		g.qword = "aq" // the same query through the untyped, string-keyed API (any_table.go) and the sequence helpers
 	}
 	switch k {
 	case "all", "num", "rev":
@@ -179,6 +181,9 @@ func (g *genState) queryOp(src string, tab int) {
 		return
 	}
 	idx := hx.Pick(g.r, []string{"id", "u", "n", "n", "n", "rev", "lu", "ln", "ln"})
+	if g.qword == "aq" && idx == "rev" {
+		g.qword = "q" // the revision index has no string form
+	}
 	if idx == "lu" || idx == "ln" {
 		var lk LKey
 		switch {
